@@ -28,14 +28,15 @@ for a in sys.argv[1:]:
     if a.startswith("--also"):
         also = a.split("=", 1)[1].split(",") if "=" in a else []
 claimed = {c["property_id"] for c in json.loads((V / "MANIFEST.json").read_text())["checks"]}
-seeds = sorted(p.parent for p in (V / "seeded").glob("*/patch.diff"))
+# EVAL_DIR: "seeded" (property-breaking changes) or "benign" (behaviour-preserving changes, expected outcome: missed)
+seeds = sorted(p.parent for p in (V / os.environ.get("EVAL_DIR", "seeded")).glob("*/patch.diff"))
 if args:
     seeds = [s for s in seeds if s.name in args]
 if subprocess.run("git status --porcelain", shell=True, cwd=REPO, capture_output=True, text=True).stdout.strip():
     sys.exit(REPO + " is not clean")
 for s in seeds:
     meta = json.loads((s / "meta.json").read_text())
-    prop = meta["breaks_property"]
+    prop = meta.get("breaks_property") or meta["property"]
     targets = [p for p in [prop] + also if p in claimed]
     if not targets:
         print(s.name, "property not claimed yet")
